@@ -14,7 +14,8 @@ claim("C18", "model_checking",
       "TLC checks App's invariants (exit table, error never masked, precedence of categories) over every behaviour its action "
       "guards allow; every abstract scenario TLC enumerates for MC_AppScen (command x scheme selection x configuration state x "
       "continue-on-error x sequence of file kinds; <=2 files quick, <=3 thorough) is replayed into the real CLI and its exit status "
-      "and category compared with the specification's; the probe events of every run are validated against Trace_App.",
+      "and category compared with the specification's; the probe events of every run are validated against Trace_App, and so are the "
+      "probe events of every command line the repository's own CLI / API tests drive (probes on; rule tests too in thorough).",
       "Trusted: TLC; the harness's concretisation of file kinds (one representative document per kind), the faulty plugin / "
       "parser seam; in-process execution of PyMarkdownLint.main (SystemExit code = process status).",
       "TLA+ App spec: TLC invariants + scenario replay into the CLI + batched trace validation (Trace_App)")
@@ -24,7 +25,9 @@ claim("C10", "model_checking",
       "MC_AppScen scenario with scan/fix/stdin/list commands (<=3 files quick, <=4 thorough) is replayed into the CLI with the "
       "work directory and a private TMPDIR hashed before/after; seeded samples of 1-3 real documents (test/resources/rules) are run "
       "through fix/scan/stdin/--list-files; all runs' probe events plus the disk observation are validated against Trace_App "
-      "(ObservedDisk action); 'no failure of a fix-capable rule => byte-identical' is checked per corpus file.",
+      "(ObservedDisk action); 'no failure of a fix-capable rule => byte-identical' is checked per corpus file; the API's fix results "
+      "(files_fixed, was_fixed) are compared with what changed under both return-code schemes; the fix / scan runs driven by the "
+      "repository's own tests (probes on) are validated against Trace_App as well.",
       "Trusted: TLC, SHA-256 snapshots of the private work directory, the parsing of 'Fixed:' lines; corpus sampling by VERIF_SEED.",
       "TLA+ App spec: TLC invariants + scenario replay + trace validation with disk observation")
 
@@ -32,12 +35,16 @@ claim("C15", "fault_enumeration",
       "Fault enumeration driven by the App specification: (1) every MC_AppScen scenario with a failing file kind at each position "
       "(plugin error in token / line phase, parser error, undecodable file) x scan/fix/stdin x continue-on-error; (2) one injected "
       "exception at EVERY individual callback invocation (start, each token, each line, completion) of a rule and at every parser "
-      "invocation of small multi-file runs, the expected outcome being the specification's outcome for 'file i fails'; (3) one SIGKILL "
-      "per system call on the target during write-back (strace), target must be original or completely fixed. All runs are validated "
-      "against Trace_App (error never masked, stop/continue, no temp file left).",
+      "invocation of small multi-file runs, the expected outcome being the specification's outcome for 'file i fails'; (2b) the same at "
+      "the callbacks of the middle one of three structured documents (nested lists, quotes, fences, HTML) with --continue-on-error: what "
+      "is said about / done to the other files must not change; (3) spec/FileIO.tla (write-back at system-call grain, Crash in every "
+      "state; AtomicTarget model-checked for replace-by-rename, also as an Apalache inductive invariant in thorough; the pinned copyfile "
+      "procedure violates it: negative configuration): one SIGKILL per system call on the target during write-back (strace), the "
+      "system calls of every complete and every killed run validated against Trace_FileIO and the file found on disk compared with the "
+      "state the model predicts. All runs are validated against Trace_App (error never masked, stop/continue, no temp file left).",
       "Trusted: TLC, the faulty plugin and parser seam, strace fault injection, SHA-256 snapshots. Known findings of the pinned tree are "
       "listed in known_findings.json and re-found on every run.",
-      "TLA+ App spec: spec-derived fault enumeration (callback / parser / syscall) + trace validation")
+      "TLA+ App + FileIO specs: spec-derived fault enumeration (callback / parser / syscall) + trace validation (probe events, strace logs)")
 
 claim("C19", "model_checking",
       "spec/Discovery.tla defines Select(tree, arguments, flags) from the user guide (eligibility by extension, directory vs "
